@@ -1083,7 +1083,7 @@ Section Refine.
       destruct fuel as [|fuel]; [lia|]. cbn [run_cont exec]. rewrite Eg.
       pose proof (Hwf c cl Eg) as Hnd.
       destruct (visit_order prio (keys (cl_consumer cl))) as [|g0 ks] eqn:Ev.
-      + eexists. split; [reflexivity|]. cbn. intros x. split; [intros []|]. intros Hin.
+      + eexists. split; [reflexivity|]. cbn [reply_equiv]. intros x. split; [|intros []]. intros Hin. exfalso.
         apply in_map_iff in Hin. destruct Hin as ([k v] & <- & Hf2). apply filter_In in Hf2. destruct Hf2 as [Hin _].
         assert (In k (visit_order prio (keys (cl_consumer cl)))) by (apply visit_order_all; unfold keys; apply in_map_iff; exists (k, v); auto).
         rewrite Ev in H. destruct H.
